@@ -54,6 +54,23 @@ class ResendRule(BaseRule):
     def atom_name(self, it, st, node):
         return ast.unparse(node)
 
+    fold = None
+    getattr_default_transparent = True  # the attributes this rule models (pool.retries, response.status, ...) always exist
+
+    def global_value(self, it, name):
+        """module constants of plain types fold (a status code or method name moved into a named constant is the same value)"""
+        if self.fold is None:
+            return None
+        try:
+            v = self.fold.module_const(it.module, name)
+        except Exception:
+            return None
+        if isinstance(v, (int, str, bytes, float, bool, type(None))):
+            return const(v)
+        if isinstance(v, (tuple, frozenset)) and all(isinstance(x, (int, str, bytes)) for x in v):
+            return const(v)
+        return None
+
     def call(self, it, st, node, recv, pos, kw):
         t = ast.unparse(node.func)
         f = node.func
@@ -381,6 +398,7 @@ def analyse(ctx, which):
     hot = hot_helpers(m, cls, fi)
     ctx.extra.setdefault("resend_inlined_helpers", {})[which] = sorted(hot)
     rule = ResendRule(m, m.method(f"{PM}.PoolManager", "urlopen") if which == "proxymanager" else fi, hot)
+    rule.fold = ctx.fold
     it = Interp(m, rule, cls, fi.module, frozenset(hot), budget=Budget(800000))
     it.func_qual = fi.qual
     it.record_decisions = True
